@@ -130,11 +130,21 @@ def f32Min : UInt32 := 0xFF7FFFFF
 def f64Max : UInt64 := 0x7FEFFFFFFFFFFFFF
 def f64Min : UInt64 := 0xFFEFFFFFFFFFFFFF
 
-def Range.fromLimits (mn mx : Option Value) : Option Range :=
-  match mn, mx with
-  | some (.double a), some (.double b) => some (Range.fromMinMax (Float.ofBits a) (Float.ofBits b))
-  | some (.single a), some (.single b) => some (Range.fromMinMax (f32ToF64 a) (f32ToF64 b))
-  | some (.integer a), some (.integer b) => some (Range.fromMinMax (i64ToFloat a) (i64ToFloat b))
+/-- `Range::limit_value`: the real value a limit stands for; a scaled-integer limit is a raw value of the
+    attribute's data type -/
+def limitValue (v : Value) (dt : Option DataType) : Option Float :=
+  match v with
+  | .double a => some (Float.ofBits a)
+  | .single a => some (f32ToF64 a)
+  | .integer a => some (i64ToFloat a)
+  | .scaled a =>
+    match dt with
+    | some (.scaled _ _ scale offset) => some (i64ToFloat a * Float.ofBits scale + Float.ofBits offset)
+    | _ => none
+
+def Range.fromLimits (mn mx : Option Value) (dt : Option DataType) : Option Range :=
+  match mn.bind (limitValue · dt), mx.bind (limitValue · dt) with
+  | some a, some b => some (Range.fromMinMax a b)
   | _, _ => none
 
 def Range.fromDataType : DataType → Range
@@ -146,9 +156,10 @@ def Range.fromDataType : DataType → Range
   | .integer mn mx => Range.fromMinMax (i64ToFloat mn) (i64ToFloat mx)
 
 def rangeFor (limits : Option (Option Value × Option Value)) (p : Prototype) (n : RecordName) : Option Range :=
-  match limits.bind (fun (a, b) => Range.fromLimits a b) with
+  let rec? := p.find? (fun r => r.name == n)
+  match limits.bind (fun (a, b) => Range.fromLimits a b (rec?.map (·.dt))) with
   | some r => some r
-  | none => (p.find? (fun r => r.name == n)).map (fun r => Range.fromDataType r.dt)
+  | none => rec?.map (fun r => Range.fromDataType r.dt)
 
 /-! ### the iterator -/
 
